@@ -17,4 +17,7 @@ Section EdgeCmp.
   Definition edge_eqb_u (a b : edge E) : bool :=
     match ecmp (eval a) (eval b) with Eq => true | _ => false end.
   Definition edge_cmp (a b : edge E) : comparison := ecmp (eval a) (eval b).
+
+  (* Edge::reverse(): the same value between swapped endpoints *)
+  Definition edge_reverse (a : edge E) : edge E := ((edst a, esrc a), eval a).
 End EdgeCmp.
